@@ -135,6 +135,10 @@ def run(tier):
         if (p.body or b'') != m.body:
             bad('parse(build(parse(y)))', 'decoded_body_wrong', case, {'got': (p.body or b'')[:40], 'want': m.body[:40]},
                 klass=m.features.get('class'))
+        # h11 knows no coding but "chunked": for its verdict on the framing a coding LIST ending in chunked is
+        # presented as plain chunked (what the list says is checked by the idempotence comparison above)
+        import re as _re
+        y2 = _re.sub(rb'(?i)(transfer-encoding:[ \t]*)[^\r\n,]+,[ \t]*(chunked)', rb'\1\2', y2)
         if m.kind == 'request':
             if any(n2.lower() == b'host' for n2, _v in m.headers) and m.method != b'CONNECT':
                 r, err = oracles.parse_request(y2)
@@ -161,6 +165,26 @@ def run(tier):
             if cp.state != chunkParserStates.COMPLETE or cp.body != b or bytes(rest) != b'':
                 bad('decode(to_chunks(b,k))', 'not_inverse', {'len': ln, 'chunk_size': k},
                     {'complete': cp.state == chunkParserStates.COMPLETE, 'body': cp.body[:40], 'rest': bytes(rest)[:20]})
+            # ... and in every read layout of equal pieces (1, 2, 5, 23 bytes): a chunk's data may take many reads
+            if ln <= 4096:
+                for piece in (1, 2, 5, 23):
+                    n += 1
+                    try:
+                        cp = ChunkParser()
+                        rest = b''
+                        for i in range(0, len(wire), piece):
+                            rest = bytes(cp.parse(memoryview(rest + wire[i:i + piece])))
+                            if cp.state == chunkParserStates.COMPLETE:
+                                rest += wire[i + piece:]
+                                break
+                    except Exception as e:  # noqa
+                        bad('decode(to_chunks(b,k))', 'raised_in_pieces', {'len': ln, 'chunk_size': k, 'piece': piece},
+                            '%s: %s' % (type(e).__name__, e))
+                        break
+                    if cp.state != chunkParserStates.COMPLETE or cp.body != b or rest != b'':
+                        bad('decode(to_chunks(b,k))', 'not_inverse_in_pieces', {'len': ln, 'chunk_size': k, 'piece': piece},
+                            {'complete': cp.state == chunkParserStates.COMPLETE, 'body': cp.body[:40], 'rest': rest[:20]})
+                        break
             try:
                 rb, used = ref_dechunk(wire)
                 if rb != b or used != len(wire):
